@@ -3,6 +3,7 @@ package props
 import (
 	"fmt"
 	"reflect"
+	"strings"
 
 	structform "github.com/elastic/go-structform"
 	"github.com/elastic/go-structform/gotype"
@@ -199,6 +200,8 @@ func seeds() []seed {
 		{"SeedNamedFields", []interface{}{SeedNamedFields{}, SeedNamedFields{M: SeedMyMap{"a": 1}, S: SeedMySlice{"x"}, I: seedImpl{2}, N: "n"}, SeedNamedFields{M: SeedMyMap{}, S: SeedMySlice{}}}, nil},
 		{"SeedTags", []interface{}{gen.SeedTags{"a", "b"}, gen.SeedTags(nil), []gen.SeedTags{{"x"}, nil}, map[string]gen.SeedTags{"k": {"y"}}, struct{ T gen.SeedTags }{gen.SeedTags{"a", "b"}},
 			[]interface{}{gen.SeedTags{"i"}}, &gen.SeedCounts{"a": 1, "b": 2}, gen.SeedCounts{"a": 3}, struct{ C gen.SeedCounts }{gen.SeedCounts{"a": 4}}, []gen.SeedCounts{{"a": 5}}, map[string]interface{}{"k": gen.SeedCounts{"a": 6}}}, nil},
+		{"deep", []interface{}{deepGeneric(5, 0), deepGeneric(6, 0), deepGeneric(9, 0), deepGeneric(5, 1), deepGeneric(6, 1), deepGeneric(10, 1), deepGeneric(6, 2), deepGeneric(7, 2), deepGeneric(17, 2),
+			deepTyped(5), deepTyped(6), deepTyped(9), struct{ I interface{} }{deepGeneric(6, 0)}, []interface{}{deepGeneric(5, 0), deepGeneric(5, 1)}}, nil},
 		{"misc", []interface{}{nil, true, "s", 1.5, float32(0.1), uint64(1<<64 - 1), []interface{}{nil, 1, "a", []interface{}{}}, map[string]interface{}{"a": map[string]interface{}{"b": []int{1}}},
 			[]byte{1, 2}, []uint16{1, 65535}, map[string]float32{"f": 0.5}, new(int), (*int)(nil), new(interface{}), [][]string{{"a"}, nil}, map[string][]interface{}{"k": {1}}, uintptr(5), make(chan int), func() {}}, nil},
 	}
@@ -247,7 +250,8 @@ func goFamilies(tier string, run func(x *engine.Exec, c *GoCase)) []engine.Famil
 	fams := []engine.Family{
 		{Name: "struct1", Arity: []int{len(ft1)}, Body: func(x *engine.Exec) {
 			ft := ft1[x.Choose(len(ft1))]
-			tg := tags[x.Choose(len(tags))]
+			all := append(append([]string{}, tags...), tagSyntax...)
+			tg := all[x.Choose(len(all))]
 			mkStruct(x, "struct1", []gen.FieldType{ft}, []string{tg}, 8)
 		}},
 		{Name: "struct2", Arity: []int{len(ft0), len(tags)}, Body: func(x *engine.Exec) {
@@ -314,6 +318,167 @@ func goFamilies(tier string, run func(x *engine.Exec, c *GoCase)) []engine.Famil
 			}
 			run(x, &GoCase{T: t, V: v, Desc: fmt.Sprintf("%s:%v", s.name, t), Class: "seed:" + s.name, Fam: "seeds", Opts: s.opts})
 		}},
+		{Name: "struct-wide", Arity: []int{25}, Body: func(x *engine.Exec) {
+			// field-count thresholds: 0..24 fields (small-struct fast paths, table sizes), three tag layouts, two value patterns
+			n := x.Choose(25)
+			layout := x.Choose(3)
+			pattern := x.Choose(2)
+			var fts []gen.FieldType
+			var tg []string
+			for i := 0; i < n; i++ {
+				fts = append(fts, ft0[i%4])
+				switch layout {
+				case 0:
+					tg = append(tg, "")
+				case 1:
+					tg = append(tg, fmt.Sprintf("f%d", i))
+				default:
+					tg = append(tg, []string{fmt.Sprintf("g%d,omitempty", i), "", "-"}[i%3])
+				}
+			}
+			spec := wideSpec{fts, tg}
+			t := spec.Build()
+			v := reflect.New(t).Elem()
+			for i := 0; i < n; i++ {
+				if pattern == 1 && i%2 == 1 {
+					continue
+				}
+				switch i % 4 {
+				case 0:
+					v.Field(i).SetInt(int64(i + 1))
+				case 1:
+					v.Field(i).SetString(fmt.Sprintf("s%d", i))
+				case 2:
+					v.Field(i).SetBool(true)
+				default:
+					v.Field(i).SetFloat(float64(i) + 0.5)
+				}
+			}
+			run(x, &GoCase{T: t, V: v, Desc: spec.String(), Class: fmt.Sprintf("struct-wide:%d-fields", n), Fam: "struct-wide"})
+		}},
+		{Name: "inline-nest", Arity: []int{2, 3, 2}, Body: func(x *engine.Exec) {
+			// Outer{[A int]; Mid inline{[B string]; Inner inline{C int; D string}; [E int]}; [F int]}: two levels of
+			// inlining with the inlined parts at zero and non-zero offsets, by value, behind a pointer or as a map
+			hasA := x.Bool()
+			midKind := x.Choose(3) // value, pointer, pointer (nil)
+			hasB := x.Bool()
+			innerKind := x.Choose(4) // struct, *struct, nil *struct, map[string]int
+			hasE := x.Bool()
+			hasF := x.Bool()
+			tInt, tStr := reflect.TypeOf(0), reflect.TypeOf("")
+			inner := reflect.StructOf([]reflect.StructField{{Name: "C", Type: tInt}, {Name: "D", Type: tStr, Tag: `struct:"dd"`}})
+			var innerT reflect.Type
+			switch innerKind {
+			case 0:
+				innerT = inner
+			case 1, 2:
+				innerT = reflect.PtrTo(inner)
+			default:
+				innerT = reflect.MapOf(tStr, tInt)
+			}
+			var mf []reflect.StructField
+			if hasB {
+				mf = append(mf, reflect.StructField{Name: "B", Type: tStr})
+			}
+			mf = append(mf, reflect.StructField{Name: "In", Type: innerT, Tag: `struct:",inline"`})
+			if hasE {
+				mf = append(mf, reflect.StructField{Name: "E", Type: tInt})
+			}
+			mid := reflect.StructOf(mf)
+			midT := mid
+			if midKind > 0 {
+				midT = reflect.PtrTo(mid)
+			}
+			var of []reflect.StructField
+			if hasA {
+				of = append(of, reflect.StructField{Name: "A", Type: tInt})
+			}
+			of = append(of, reflect.StructField{Name: "Mid", Type: midT, Tag: `struct:",squash"`})
+			if hasF {
+				of = append(of, reflect.StructField{Name: "F", Type: tInt})
+			}
+			t := reflect.StructOf(of)
+			v := reflect.New(t).Elem()
+			if hasA {
+				v.FieldByName("A").SetInt(1)
+			}
+			if hasF {
+				v.FieldByName("F").SetInt(6)
+			}
+			mv := v.FieldByName("Mid")
+			if midKind == 1 {
+				mv.Set(reflect.New(mid))
+			}
+			if midKind != 2 {
+				if mv.Kind() == reflect.Ptr {
+					mv = mv.Elem()
+				}
+				if hasB {
+					mv.FieldByName("B").SetString("b2")
+				}
+				if hasE {
+					mv.FieldByName("E").SetInt(5)
+				}
+				iv := mv.FieldByName("In")
+				switch innerKind {
+				case 1:
+					iv.Set(reflect.New(inner))
+					iv = iv.Elem()
+					fallthrough
+				case 0:
+					iv.FieldByName("C").SetInt(3)
+					iv.FieldByName("D").SetString("d4")
+				case 3:
+					iv.Set(reflect.ValueOf(map[string]int{"c": 3, "m": 4}))
+				}
+			}
+			desc := fmt.Sprintf("inline-nest{A:%v Mid:%d{B:%v In:%d E:%v} F:%v}", hasA, midKind, hasB, innerKind, hasE, hasF)
+			run(x, &GoCase{T: t, V: v, Desc: desc + " " + t.String(), Class: "inline-nest", Fam: "inline-nest"})
+		}},
+		{Name: "sizes", Arity: []int{6}, Body: func(x *engine.Exec) {
+			// container and string sizes 0..33 (small-size fast paths, growth steps of scratch buffers)
+			kind := x.Choose(6)
+			n := x.Choose(34)
+			var val interface{}
+			switch kind {
+			case 0:
+				s := make([]int, n)
+				for i := range s {
+					s[i] = i - 3
+				}
+				val = s
+			case 1:
+				s := make([]interface{}, n)
+				for i := range s {
+					s[i] = []interface{}{i, "x", nil}[i%3]
+				}
+				val = s
+			case 2:
+				m := map[string]int{}
+				for i := 0; i < n; i++ {
+					m[fmt.Sprintf("k%d", i)] = i
+				}
+				val = m
+			case 3:
+				m := map[string]interface{}{}
+				for i := 0; i < n; i++ {
+					m[fmt.Sprintf("k%d", i)] = []interface{}{i, "x", []interface{}{}}[i%3]
+				}
+				val = m
+			case 4:
+				val = strings.Repeat("a\u00e9", n*3)
+			default:
+				s := make([]string, n)
+				for i := range s {
+					s[i] = strings.Repeat("z", i)
+				}
+				val = s
+			}
+			t := reflect.TypeOf(val)
+			v := reflect.New(t).Elem()
+			v.Set(reflect.ValueOf(val))
+			run(x, &GoCase{T: t, V: v, Desc: fmt.Sprintf("%v(size %d)", t, n), Class: "sizes:" + kindClass(t), Fam: "sizes"})
+		}},
 	}
 	if tier == "thorough" {
 		red := ft0[:8]
@@ -360,15 +525,84 @@ func kindClass(t reflect.Type) string {
 }
 
 func tagClass(tag string) string {
-	switch tag {
-	case "":
+	name, omit, omitEmpty, inline := model.ParseTag(tag)
+	switch {
+	case tag == "":
 		return ""
-	case "name":
-		return "[name]"
-	case "-", ",omit":
+	case omit:
 		return "[omit]"
-	case ",omitempty", "name,omitempty":
+	case inline:
+		return "[inline]"
+	case omitEmpty:
 		return "[omitempty]"
+	case name != "":
+		return "[name]"
 	}
-	return "[inline]"
+	return "[other]"
+}
+
+// tagSyntax are further spellings of the tag (one-field structs only): bare names that spell an option
+// keyword, surrounding blanks, empty parts, several options, an option after "-", unknown options.
+var tagSyntax = []string{"omit", "omitempty", "inline", "squash", " name ", "name, omitempty", ",omitempty,omit", "-,omitempty", "name,", ",", "name,inline", ",omitempty,inline", "-x", ",unknown", ", inline ", "omit,omitempty"}
+
+// deepGeneric nests n containers (kind 0 arrays, 1 objects, 2 alternating) around a leaf, with a sibling after the deep child at every level.
+func deepGeneric(n, kind int) interface{} {
+	var v interface{} = "leaf"
+	for i := n - 1; i >= 0; i-- {
+		if kind == 0 || (kind == 2 && i%2 == 0) {
+			v = []interface{}{v, i}
+		} else {
+			v = map[string]interface{}{"d": v, "s": i}
+		}
+	}
+	return v
+}
+
+func deepTyped(n int) interface{} {
+	t := reflect.TypeOf(0)
+	v := reflect.ValueOf(7)
+	for i := 0; i < n; i++ {
+		t = reflect.SliceOf(t)
+		s := reflect.MakeSlice(t, 0, 2)
+		s = reflect.Append(s, v)
+		if i > 0 {
+			s = reflect.Append(s, reflect.Zero(t.Elem()))
+		}
+		v = s
+	}
+	return v.Interface()
+}
+
+// wideSpec is a StructSpec whose field names are F0, F1, ... (more than 26 fields possible).
+type wideSpec struct {
+	Fields []gen.FieldType
+	Tags   []string
+}
+
+func (s wideSpec) String() string {
+	var sb strings.Builder
+	sb.WriteString("struct{")
+	for i, f := range s.Fields {
+		if i > 0 {
+			sb.WriteString("; ")
+		}
+		fmt.Fprintf(&sb, "F%d %s", i, f.Name)
+		if s.Tags[i] != "" {
+			fmt.Fprintf(&sb, " `struct:%q`", s.Tags[i])
+		}
+	}
+	sb.WriteString("}")
+	return sb.String()
+}
+
+func (s wideSpec) Build() reflect.Type {
+	var fs []reflect.StructField
+	for i, f := range s.Fields {
+		sf := reflect.StructField{Name: fmt.Sprintf("F%d", i), Type: f.T}
+		if s.Tags[i] != "" {
+			sf.Tag = reflect.StructTag(fmt.Sprintf(`struct:%q`, s.Tags[i]))
+		}
+		fs = append(fs, sf)
+	}
+	return reflect.StructOf(fs)
 }
